@@ -32,6 +32,15 @@ class Wrapped:
         return "<Wrapped %d>" % self.sim_n
 
 
+class SimForeign(Exception):
+    """An application's own exception class."""
+
+
+FOREIGN = {"overflow": OverflowError, "key": KeyError, "type": TypeError,
+           "zerodiv": ZeroDivisionError, "lookup": LookupError,
+           "oserror": OSError, "custom": SimForeign}
+
+
 def _fault(seam, counter):
     w = WORLD
     if w is None:
@@ -48,6 +57,13 @@ def _fault(seam, counter):
             raise ValueError("simulated %s failure #%d" % (seam, n))
         if kind.endswith("runtimeerror"):
             raise RuntimeError("simulated %s failure #%d" % (seam, n))
+        if "-foreign-" in kind:
+            # the datatype function's OWN error, of a class that is not a
+            # rejection (ValueError): it belongs to the application
+            cls = FOREIGN[kind.rsplit("-", 1)[1]]
+            exc = cls("simulated %s failure #%d" % (seam, n))
+            w.foreign.append(exc)
+            raise exc
         if kind.endswith("abort"):
             from zcsim.world import SimAbort
             raise SimAbort("simulated interruption in %s call #%d"
